@@ -114,3 +114,44 @@ Example c15_witness :
   | None => False
   end.
 Proof. vm_compute. reflexivity. Qed.
+
+(* ==== added after the audit of 2026-10-02 (selftest/audit/REPORT-2026-10-02.md) ==== *)
+Require Import Cadence.Proofs.AuditQ.
+
+(* what the harness-level ASample observes: exactly (submitted, drained, queued, panics) of the
+   state, queued being the guarded difference; it answers RNone and does not change the state *)
+Theorem c15_sample_obs : forall fixed s,
+  ob_sample (snd (act fixed s ASample)) = Some (q_submitted s, q_drained s, queued_now s, q_panics s) /\
+  ob_result (snd (act fixed s ASample)) = RNone /\ fst (act fixed s ASample) = s.
+Proof. exact sample_obs. Qed.
+
+(* a sample taken by the harness after ANY script from the initial state (repaired semantics):
+   no internal step is outstanding; submitted = the number accepted; drained = completed calls
+   plus the one in progress; queued() = exactly the number of metrics waiting in the channel;
+   panics = the panicked calls in the delivery log *)
+Theorem c15_harness_sample : forall cap handler l,
+  let s := fst (acts true (init_q cap handler) l) in
+  internal_step true s = None /\
+  ob_sample (snd (act true s ASample)) =
+    Some (q_accepted s, length (q_delivered s) + counted (q_wk s),
+          length (somes (q_chan s)), npanics (q_delivered s)).
+Proof. exact harness_sample. Qed.
+
+(* the quiescent equalities at the end of EVERY maximal background schedule, not only [quiesce] *)
+Theorem c15_any_schedule : forall cap handler evs s rs wevs s' wrs,
+  run true (init_q cap handler) evs = Some (s, rs) ->
+  Forall worker_side wevs -> run true s wevs = Some (s', wrs) -> stuck true s' ->
+  q_submitted s' = count_ok rs /\ q_drained s' = count_ok rs /\
+  length (q_delivered s') = count_ok rs /\ queued_now s' = 0.
+Proof. exact stats_any_schedule. Qed.
+
+Example c15_harness_obs_witness :
+  let '(s, os) := acts true (init_q (Some 1) true)
+                    [AEmit; AEmit; AEmit; ARelease SOk; ASample; ARelease SPanic; ARelease SOk;
+                     ASample; ADrop; AEmit; AClone; ADrop; ARelease SOk; ASample] in
+  (map ob_result os, map ob_sample os, q_wk s, q_handles s) =
+  ([ROk; ROk; RFull; RNone; RNone; RNone; RNone; RNone; RNone; RNone; RNone; RNone; RNone; RNone],
+   [None; None; None; None; Some (2, 2, 0, 0); None; None; Some (2, 2, 0, 1);
+    None; None; None; None; None; Some (2, 2, 0, 1)],
+   WExited, 0).
+Proof. exact harness_obs_witness. Qed.
